@@ -149,8 +149,11 @@ class Monitor(object):
         o = sim.nodes[nid]
         # C11 / C12: nothing escapes the tick or the message handler
         if sim.exc and k in ('tick', 'deliver'):
+            empty = len(g(o, 'raftLog')) == 0
             self.rec('C12' if sim.exc == 1 else 'C11',
-                     'exception escaped %s of node %d: %s' % (k, nid, getattr(sim, 'exc_repr', sim.exc)))
+                     'exception escaped %s of node %d: %s%s' % (k, nid, getattr(sim, 'exc_repr', sim.exc),
+                                                                ' (its log is empty)' if empty else ''),
+                     finding='KF-C07-1' if (empty and 'kf_c07_1' in self.trigger) else None)
         if k == 'deliver':
             self.heard.setdefault(ev[2], {})[ev[1]] = ev[3]
         self.check_c06_c07(rec, sim, ev, nid, o)
